@@ -61,6 +61,17 @@ def handle : Handler := fun j => do
       else match searchRex (stripComment l) with
         | some m => Json.mkObj [("optional", m.optional), ("args", ofStr m.args), ("len", Json.num m.len)]
         | none => Json.str "other").toArray)])
+  | "re" =>
+    -- the hand-translated regular expressions and string helpers, one answer per line, for the differential test against `re`
+    pure (Json.mkObj [("res", Json.arr (lines.map fun l =>
+      Json.mkObj [("blank", isBlankOrComment l), ("nocomment", ofStr (stripComment l)),
+        ("rex", match searchRex l with
+          | some m => Json.mkObj [("optional", m.optional), ("args", ofStr m.args), ("len", Json.num m.len)]
+          | none => Json.null),
+        ("preExact", preExactRe l), ("openBrace", endsWithOpenBrace l), ("closeBrace", isCloseBrace l),
+        ("split", ofStrs (splitWs l)), ("strip", ofStr (strip l)), ("relop", hasRelop l),
+        ("badrelop", badRelop l), ("first", ofStr (firstField l)), ("bracket", ofStrs (splitBracket l)),
+        ("external", contains sExternal l)]).toArray)])
   | "expand" =>
     let pins ← pairs j "pins"
     let spv ← pairs j "spv"
